@@ -190,6 +190,9 @@ def gen_dataset_case(rng, confirm, i):
         shape = rng.choice(["flat", "hive"])
     elif rng.random() < 0.3:
         cat_mode = "same"
+    elif rng.random() < 0.3:
+        cat_mode = "grow"              # label sets that grow from file to file (each a prefix of the next): must work
+    grow_sizes = sorted(rng.choice([2, 3, 5, 100, 127, 128, 130, 200, 300]) for _ in range(k))
     files = []
     off = 0
     levels = rng.choice([1, 2])
@@ -211,6 +214,8 @@ def gen_dataset_case(rng, confirm, i):
             cats = rng.sample(["p", "q", "r", "s", "t"], rng.choice([2, 3]))
         elif cat_mode == "same":
             cats = ["p", "q", "r"]
+        elif cat_mode == "grow":
+            cats = ["l%03d" % x for x in range(grow_sizes[j])]
         else:
             cats = None
         files.append({"dir": d, "name": name, "n": n, "off": off, "codec": rng.choice([None, None, "GZIP", "SNAPPY", "ZSTD"]),
@@ -240,7 +245,8 @@ def _frame(spec, bad=False):
          "v": np.array([(x * 0.5 if x % 3 else float("nan")) for x in range(off, off + n)], dtype="float64"),
          "s": pd.Series(["r%d" % x for x in range(off, off + n)], dtype="str")}
     if spec["cats"]:
-        d["c"] = pd.Categorical.from_codes([x % len(spec["cats"]) for x in range(n)], categories=spec["cats"])
+        m = len(spec["cats"])       # low and high codes alike
+        d["c"] = pd.Categorical.from_codes([((m - 1 - x) if x % 2 else x) % m for x in range(n)], categories=spec["cats"])
     if spec.get("objbool"):
         d["b"] = np.array([bool(x % 2) for x in range(n)] + [None], dtype=object)[:-1]
     if bad:
@@ -332,11 +338,17 @@ def check_dataset(case, root, pq, ctx=None, verbose=False):
 
     cls0 = {"shape": shape, "relative": bool(case.get("relative")), "categorical": case["cat_mode"],
             "object_column_first_file_empty": objbool,
-            "dictionaries_differ": case["cat_mode"] == "differ" and len({tuple(f["cats"]) for f in case["files"]}) > 1}
+            "dictionaries_differ": case["cat_mode"] in ("differ", "grow") and len({tuple(f["cats"]) for f in case["files"]}) > 1}
+
+    def nested(order):
+        """every file's label list is a prefix of the label list of the last file that has rows (in this order):
+        then one dictionary - the last - labels every row correctly, and the known finding does not apply"""
+        cl = [case["files"][j]["cats"] for j in order if case["files"][j]["n"] > 0 and case["files"][j]["cats"]]
+        return bool(cl) and all(c == cl[-1][:len(c)] for c in cl)
 
     def compare(via, fn, order, base_dir, **kw):
         vias.append(via)
-        cls = dict(cls0, via=via)
+        cls = dict(cls0, via=via, dictionaries_nested=nested(order))
         try:
             pf = fn()
             df = pf.to_pandas()
